@@ -328,6 +328,8 @@ pub fn run(thorough: bool) -> Report {
         fams.push((&fnm, 4, false));
         fams.push((&brm, 4, true));
     }
+    let quiet = quiet_menu();
+    fams.push((&quiet, 3, false));
     let inm = input_menu();
     fams.push((&inm, 2, true));
     fams.push((&inm, 3, false));
@@ -343,6 +345,9 @@ pub fn run(thorough: bool) -> Report {
             let seq: Vec<T> = idxs.iter().map(|k| menu[*k].1.clone()).collect();
             let mut acc = Acc::default();
             for &j in &joins {
+                if !layout_is_faithful(&seq, j) {
+                    continue;
+                }
                 let prog = layout(&seq, j);
                 let lines = render_program(&prog);
                 if with_input {
